@@ -49,6 +49,11 @@ CLAIMED = {
    text="Decides necessary conditions of the map/prefix behaviour: every site that reports a key tests isValid on the node it reports and isValid is written only at the key's last byte (AG2); the key counter is incremented only through an absence edge of a lookup of the inserted key and no insertion bypasses it except through isValid true (AG4); put/get/LongestPrefix agree on left/right/mid for smaller/greater/equal bytes and on depth advance, collect visits left, self, mid, right (AG3); the stored byte is appended unaltered, never through an integer-to-string conversion, and LongestPrefix returns query[:length] (AG8/PV1); every key index is dominated by a length test, empty input is rejected, lookups do not write (PT3/EF1). Results for concrete key sets are not decided.",
    note="Trusted: go/ssa; get's (nil, err)/(node, nil) contract; Put's non-empty-key precondition.",
    ref="DESIGN.md section 3 E7, section 4 C09"),
+ "C10": dict(
+   technique="flag-consulted-by-every-reader, counter-discipline (edge-cut reachability) and descent-agreement rules on go/ssa over btree/btree.go",
+   text="Decides necessary conditions of the ordered-map behaviour: search reports (value, true) and traverse invokes the visitor only under isRemoved == false of the entry reported, the tombstone is written only by insert's overwrite branch (AG2); Put's increment is reachable only through the 'lookup of the inserted key found nothing' edge and no insertion bypasses it, Remove's decrement and tombstoning only through a live-entry edge (AG4); search and insert descend into children[i].next exactly under (i+1 == m || key < children[i+1].key) with height-1, an equal leaf key can never reach the shifting insertion (AG3); height grows by one only in Put on a root split together with the root replacement (PT3); Get/Size/IsEmpty/Height are projections. Sortedness, split arithmetic, the height bound and Traverse order are not decided.",
+   note="Trusted: go/ssa; gogu.Equal is ==, gogu.Less is <; missing unexported helpers degrade to undecided obligations (VIOLATION) instead of a checker failure.",
+   ref="DESIGN.md section 3 E7, section 4 C10"),
 }
 
 NOT_YET = "check not built yet (static-analysis engines under construction; see DESIGN.md section 7)"
